@@ -24,6 +24,7 @@ import (
 	"time"
 
 	"github.com/apache/yunikorn-core/pkg/common/resources"
+	"github.com/apache/yunikorn-core/pkg/common/security"
 )
 
 // Verification hooks (build tag verif): deterministic access to the timers and timing variables.
@@ -127,6 +128,24 @@ func (sn *Node) VerifPeek() (map[string]int64, map[string]int64) {
 		return m
 	}
 	return cp(sn.allocatedResource), cp(sn.availableResource)
+}
+
+// VerifPeekChildren returns the child queues WITHOUT taking the queue lock (see VerifPeek).
+func (sq *Queue) VerifPeekChildren() []*Queue {
+	out := make([]*Queue, 0, len(sq.children))
+	for _, c := range sq.children {
+		out = append(out, c)
+	}
+	return out
+}
+
+// VerifPeekSubmitAccess is CheckSubmitAccess WITHOUT the queue locks (see VerifPeek).
+func (sq *Queue) VerifPeekSubmitAccess(user security.UserGroup) bool {
+	allow := sq.submitACL.CheckAccess(user) || sq.adminACL.CheckAccess(user)
+	if !allow && sq.parent != nil {
+		allow = sq.parent.VerifPeekSubmitAccess(user)
+	}
+	return allow
 }
 
 // VerifQuotaPreemptionStart returns the moment from which quota change preemption may run for this queue (zero: not set).
